@@ -667,17 +667,11 @@ func (dr *dirRepo) gc() error {
 		if err != nil {
 			return fmt.Errorf("failed to load index: %w", err)
 		}
-		i, mod, err := repoGarbageCollect(dr, dr.conf, dr.index, true)
-		if err != nil {
-			return err
-		}
-		if mod {
+		_, _, err = repoGarbageCollect(dr, dr.conf, dr.index, true, func(i types.Index) error {
 			dr.index = i
-			if err := dr.indexSave(true); err != nil {
-				return err
-			}
-		}
-		return nil
+			return dr.indexSave(true)
+		})
+		return err
 	}()
 	// prune an empty repo dir and mark the repo as empty if successful
 	if *dr.conf.Storage.GC.EmptyRepo && len(dr.index.Manifests) == 0 && dr.uploads.IsEmpty() {
